@@ -19,6 +19,10 @@ func TestHunt(t *testing.T) {
 	}
 	r := hx.NewRng(uint64(cnt))
 	bad := 0
+	slackHist := map[int]int{}
+	late := 0
+	defer func() { t.Logf("runs with a cut-off inside splitBin after the first position: %d", late) }()
+	defer func() { t.Logf("least slack m - len(value) in runs with a sibling after a cut-off: %v", slackHist) }()
 	for it := 0; it < cnt && bad < 5; it++ {
 		n := r.Range(4, 9)
 		g := cx.RandomGnp(r, n, r.Range(2, 8), 10)
@@ -46,7 +50,17 @@ func TestHunt(t *testing.T) {
 			p, d, gg := graph.CanonicalIsomorphFull(g.Dense(), copyClasses(cls))
 			perm, ds, gens = p, d, gg
 		})
-		pp, po, pg, _, status := portSearch(g.Adj, cls, 1000000)
+		cov := map[string]bool{}
+		pp, po, pg, _, status := portSearchCov(g.Adj, cls, 1000000, cov)
+		if cov["sibling-after-late-cutoff"] {
+			late++
+			if late <= 3 {
+				t.Logf("late cut-off followed by a sibling: %s classes %s slack %d", g.Graph6(), cx.ClassesString(cls), lastMinSlack)
+			}
+		}
+		if cov["sibling-after-cutoff"] {
+			slackHist[lastMinSlack]++
+		}
 		if msg != "" || status != "ok" {
 			t.Logf("impl %q port %q on %s classes %s", msg, status, g.Graph6(), cx.ClassesString(cls))
 			bad++
